@@ -160,6 +160,13 @@ func (C11) Generate(r *rand.Rand, tier string, idx int) *drv.Scenario {
 			for c := 0; c < nc; c++ {
 				cl := fmt.Sprintf("c%d", c+1)
 				x := r.IntN(10)
+				if locks && r.IntN(8) == 0 && c+1 < nc {
+					// two clients create a data instance of the same name at once: one of them must be refused
+					name := fmt.Sprintf("dup%d", b)
+					sub = append(sub, drv.Op{Op: "mkinst", C: cl, V: keep, I: name}, drv.Op{Op: "mkinst", C: fmt.Sprintf("c%d", c+2), V: keep, I: name})
+					c++
+					continue
+				}
 				if locks && r.IntN(2) == 0 {
 					switch y := r.IntN(6); y {
 					case 0, 1:
@@ -520,6 +527,11 @@ func (C11) toReq(x *KVExec, s drv.Op) (proto.Req, bool) {
 		}
 	case "infos":
 		rq.Method, rq.URL = "GET", "/api/repos/info"
+	case "mkinst":
+		if !x.D.Has(s.V) {
+			return rq, false
+		}
+		rq.Method, rq.URL, rq.Body = "POST", "/api/repo/"+x.uuid(s.V)+"/instance", jsonBody(map[string]interface{}{"typename": "keyvalue", "dataname": s.I})
 	case "merge":
 		var ps []string
 		for _, p := range s.Ps {
@@ -631,11 +643,19 @@ func (c C11) annBatch(x *KVExec, op drv.Op, model map[[3]int]string) (*drv.Viola
 func (C11) checkNodeMeta(x *KVExec, ops []drv.Op, resps []proto.Resp, lastNote map[int]string, logLines map[int][]string) (*drv.Violation, error) {
 	notes := map[int][]string{}
 	touched := map[int]bool{}
+	created := map[string]int{}
 	for j, s := range ops {
 		if resps[j].Status != 200 {
 			continue
 		}
 		switch s.Op {
+		case "mkinst":
+			created[s.I]++
+			if created[s.I] > 1 {
+				return &drv.Violation{Prop: "C11", Oracle: "acked-instance-unique", Sig: "two concurrent requests creating a data instance of one name are both acknowledged",
+					Detail: fmt.Sprintf("instance %q: both POST /api/repo/<root>/instance answered 200; the second replaces the first in the repo's instance map", s.I)}, nil
+			}
+			x.W.Stats.Probe("concurrent-instance-creation")
 		case "note":
 			notes[s.V] = append(notes[s.V], "<"+s.Val+">")
 			touched[s.V] = true
